@@ -156,7 +156,8 @@ def predicate(c, base):
             else:
                 sig = "C13 outcome-differs " + name
             fails.append(("C13_same_outcome", sig,
-                          "outputs missing w.r.t. uninterrupted run: %s" % sorted(missing)))
+                          "outputs missing w.r.t. uninterrupted run: %s; outputs the uninterrupted "
+                          "run never produces: %s" % (sorted(missing), sorted(co - bo))))
         br = {tuple(r) for r in base["end"]["rep"]}
         cr = {tuple(r) for r in c["end"]["rep"]}
         if br != cr:
